@@ -482,6 +482,10 @@ lys_find_xpath_atoms(const struct ly_ctx *ctx, const struct lysc_node *ctx_node,
 cleanup:
     lyxp_set_free_content(&xp_set);
     lyxp_expr_free(ctx, exp);
+    if (ret) {
+        ly_set_free(*set, NULL);
+        *set = NULL;
+    }
     return ret;
 }
 
